@@ -428,11 +428,17 @@ impl ValueWriter for VLogger<'_> {
 /// What a terminal recorded for one entry: the items and the sample group.
 #[derive(Default, Clone)]
 struct Rec { items: Vec<Item>, group: Dims }
-fn record<E: Entry + ?Sized>(e: &E) -> Rec {
+/// object-safe view of an entry for the recorder (keeps `record` itself out of the per-type instantiations)
+trait Recordable { fn w(&self, l: &mut Logger<'_>); fn g(&self) -> Dims; }
+impl<E: Entry + ?Sized> Recordable for E {
+    fn w(&self, l: &mut Logger<'_>) { Entry::write(self, l) }
+    fn g(&self) -> Dims { Entry::sample_group(self).map(|(k, v)| (k.into_owned(), v.into_owned())).collect() }
+}
+fn record(e: &dyn Recordable) -> Rec {
     let mut rec = Rec::default();
-    let ok = catch(|| e.write(&mut Logger { items: &mut rec.items })).is_some();
+    let ok = catch(|| e.w(&mut Logger { items: &mut rec.items })).is_some();
     if !ok && !matches!(rec.items.last(), Some(Item::Val(_, VCall::Panic))) { rec.items.push(Item::PanicOutside); }
-    rec.group = catch(|| e.sample_group().map(|(k, v)| (k.into_owned(), v.into_owned())).collect()).unwrap_or_else(|| vec![("!panic".into(), "".into())]);
+    rec.group = catch(|| e.g()).unwrap_or_else(|| vec![("!panic".into(), "".into())]);
     rec
 }
 fn enc_rec(r: &Rec) -> Sx { Sx::L(vec![Sx::L(r.items.iter().map(enc_item).collect()), enc_dims(&r.group)]) }
@@ -506,6 +512,8 @@ trait Depth {
 struct DZ;
 struct DS<D>(PhantomData<D>);
 type DTop = DS<DS<DZ>>;
+/// bases other than a plain script or a BoxEntry get one static wrapper
+type DOne = DS<DZ>;
 const EDEPTH: usize = 2;
 impl Depth for DZ {
     fn cs<E: Entry + Clone + Send + Sync + 'static, F: Fin>(e: E, ws: &[EW], fin: F) -> F::Out {
@@ -536,8 +544,7 @@ impl<D: Depth> Depth for DS<D> {
             EW::Boxed => DTop::s(e.boxed(), rest, fin),
             EW::Cont(0) => D::cs(leak(e), rest, fin),
             EW::Cont(2) => D::cs(Arc::new(e), rest, fin),
-            EW::Cont(3) => D::cs(Cow::<'static, E>::Owned(e), rest, fin),
-            EW::Cont(k) if *k >= 4 => D::cs(Cow::<'static, E>::Borrowed(leak(e)), rest, fin),
+            EW::Cont(k) if *k >= 3 => D::cs(Cow::<'static, E>::Owned(e), rest, fin),
             x => same_world!(D, cs, e, x, rest, fin),
         }
     }
@@ -565,7 +572,6 @@ impl<D: Depth> Depth for DS<D> {
             EW::ContI(0) => D::i(leak(e), rest, fin),
             EW::ContI(1) => D::i(Box::new(e), rest, fin),
             EW::ContI(2) => D::i(Arc::new(e), rest, fin),
-            EW::ContI(3) => D::i(Cow::<'static, E>::Owned(e), rest, fin),
             EW::ContI(_) => D::i(Cow::<'static, E>::Borrowed(leak(e)), rest, fin),
             EW::SomeI => D::i(Some(e), rest, fin),
             EW::WithDimsI(d) => D::i(wd(e, d), rest, fin),
@@ -626,20 +632,20 @@ fn build<F: Fin>(t: &ETree, fin: F) -> F::Out {
             let e = mk_plain(s, g);
             if starts_inflectable(&ws) { DTop::i(e, &ws, fin) } else { DTop::cs(e, &ws, fin) }
         }
-        ETree::Empty => DTop::cs(EmptyEntry, &ws, fin),
-        ETree::OptNone => DTop::cs(None::<SE<PV>>, &ws, fin),
-        ETree::OptNoneI => DTop::i(None::<SE<PV>>, &ws, fin),
+        ETree::Empty => DOne::cs(EmptyEntry, &ws, fin),
+        ETree::OptNone => DOne::cs(None::<SE<PV>>, &ws, fin),
+        ETree::OptNoneI => DOne::i(None::<SE<PV>>, &ws, fin),
         ETree::Merged(a, b) => match (child(a), child(b)) {
-            (Child::Plain(a), Child::Plain(b)) => DTop::cs(a.merge(b), &ws, fin),
-            (Child::Plain(a), Child::Boxed(b)) => DTop::s(a.merge(b), &ws, fin),
-            (Child::Boxed(a), Child::Plain(b)) => DTop::s(a.merge(b), &ws, fin),
-            (Child::Boxed(a), Child::Boxed(b)) => DTop::s(a.merge(b), &ws, fin),
+            (Child::Plain(a), Child::Plain(b)) => DOne::cs(a.merge(b), &ws, fin),
+            (Child::Plain(a), Child::Boxed(b)) => DOne::s(a.merge(b), &ws, fin),
+            (Child::Boxed(a), Child::Plain(b)) => DOne::s(a.merge(b), &ws, fin),
+            (Child::Boxed(a), Child::Boxed(b)) => DOne::s(a.merge(b), &ws, fin),
         },
         ETree::MergedRef(a, b) => match (child(a), child(b)) {
-            (Child::Plain(a), Child::Plain(b)) => DTop::cs(leak(a).merge_by_ref(leak(b)), &ws, fin),
-            (Child::Plain(a), Child::Boxed(b)) => DTop::n(leak(a).merge_by_ref(leak(b)), &ws, fin),
-            (Child::Boxed(a), Child::Plain(b)) => DTop::n(leak(a).merge_by_ref(leak(b)), &ws, fin),
-            (Child::Boxed(a), Child::Boxed(b)) => DTop::n(leak(a).merge_by_ref(leak(b)), &ws, fin),
+            (Child::Plain(a), Child::Plain(b)) => DOne::cs(leak(a).merge_by_ref(leak(b)), &ws, fin),
+            (Child::Plain(a), Child::Boxed(b)) => DOne::n(leak(a).merge_by_ref(leak(b)), &ws, fin),
+            (Child::Boxed(a), Child::Plain(b)) => DOne::n(leak(a).merge_by_ref(leak(b)), &ws, fin),
+            (Child::Boxed(a), Child::Boxed(b)) => DOne::n(leak(a).merge_by_ref(leak(b)), &ws, fin),
         },
         _ => unreachable!(),
     }
@@ -656,8 +662,8 @@ fn typ(t: &ETree) -> Result<(World, usize), String> {
             if s.iter().any(|i| matches!(i, SItem::Val(_, v, _) if vdepth(v) > VDEPTH)) { return Err("value depth".into()); }
             Ok((if is_rich(s) { World::Rich } else { World::Both }, 0))
         }
-        Empty | OptNone => Ok((World::CS, 0)),
-        OptNoneI => Ok((World::I, 0)),
+        Empty | OptNone => Ok((World::CS, 1)),
+        OptNoneI => Ok((World::I, 1)),
         Merged(a, b) | MergedRef(a, b) => {
             let mut plain = true;
             for c in [a, b] {
@@ -667,7 +673,7 @@ fn typ(t: &ETree) -> Result<(World, usize), String> {
                     _ => return Err("merged operand".into()),
                 }
             }
-            Ok((if plain { World::CS } else if matches!(t, Merged(..)) { World::S } else { World::N }, 0))
+            Ok((if plain { World::CS } else if matches!(t, Merged(..)) { World::S } else { World::N }, 1))
         }
         Boxed(e) => match typ(e)? { (World::N | World::I, _) => Err("boxed".into()), _ => Ok((World::S, 0)) },
         Cont(k, e) => match typ(e)? {
